@@ -10,6 +10,9 @@ NA == Len(Alpha)
 NameAt(i) == IF i <= NA THEN (IF Alpha[i] = "." THEN <<"a", "a", "a">> ELSE <<Alpha[i]>>)
              ELSE LET x == Alpha[(i - NA - 1) \div NA + 1]  y == Alpha[((i - NA - 1) % NA) + 1]
                   IN IF x = "." /\ y = "." THEN <<"a", ".", "B">> ELSE <<x, y>>
-NFiles == NA + NA * NA
-W12 == [nodes |-> [i \in 1 .. NFiles |-> [id |-> i, parent |-> 0, kind |-> "file", namec |-> NameAt(i), name |-> Str(NameAt(i))]]]
+(* two long names (80 and 81 characters) for patterns with many one-character wildcards *)
+LongName(n) == [i \in 1 .. n |-> IF i = n THEN "B" ELSE "a"]
+NShort == NA + NA * NA
+NFiles == NShort + 2
+W12 == [nodes |-> [i \in 1 .. NFiles |-> IF i > NShort THEN [id |-> i, parent |-> 0, kind |-> "file", namec |-> LongName(79 + i - NShort), name |-> Str(LongName(79 + i - NShort))] ELSE [id |-> i, parent |-> 0, kind |-> "file", namec |-> NameAt(i), name |-> Str(NameAt(i))]]]
 =============================================================================
